@@ -56,7 +56,7 @@ def parse_cmd(obj, path, content, dl, cm, py=False, jn=False):
 
 # ---------------------------------------------------------------- histories (5.6)
 import floatoracle as _fo
-SECTIONS = [None, b"", b"A", b"[A]", b"B", b"[B]", b"_none_", b"C c", b"[D", b"[A]b]", b"Ab", b"C", b"_none_2", b"Az", b"BY", b"[]", b"[", b"]", b"[ ]", b"_npMe_"]   # incl. names that are prefixes of other names
+SECTIONS = [None, b"", b"A", b"[A]", b"B", b"[B]", b"_none_", b"C c", b"[D", b"[A]b]", b"Ab", b"C", b"_none_2", b"Az", b"BY", b"[]", b"[", b"]", b"[ ]", b"_npMe_", b"a", b"AB", b"L" * 299 + b"1", b"L" * 299 + b"2"]      # ... names differing in letter case only, names of 300 bytes differing in the last one   # incl. names that are prefixes of other names
 KEYS = [b"k1", b"k2", b"k3", b"k4", b"key five", b"az", b"bY", b"_none_", b"k1 ", b"k2\t"]      # the last two have equal djb2 hashes
 BADKEYS = [None, b""]
 STRVALS = [b"v", b"", b"two words", b"Yes Please", b"-17", b"0x1F", b"077", b"1e3", b"true", b"NO", b"_none_",
